@@ -328,21 +328,17 @@ def extract(lf, spec, profiles="oracle"):
     edges = []
     tips = []
 
-    def walk(node):
+    def walk(node, is_root):
+        e = -1
+        if not is_root:
+            e = len(edges)
+            edges.append(node.name)
         if node.is_tip():
             tips.append(node.name)
-            return {"l": len(tips) - 1, "e": edges.index(node.name)}
-        cs = []
-        for c in node.children:
-            edges.append(c.name)
-            cs.append(None)
-        base = len(edges) - len(node.children)
-        names = [c.name for c in node.children]
-        for i, c in enumerate(node.children):
-            cs[i] = walk(c)
-        return {"c": cs, "e": edges.index(node.name) if node.name in edges else -1}
+            return {"l": len(tips) - 1, "e": e}
+        return {"c": [walk(c, False) for c in node.children], "e": e}
 
-    tj = walk(tree)
+    tj = walk(tree, True)
     bin_names = list(lf.bin_names) if lf.bin_names and len(lf.bin_names) > 1 else [None]
     bins = []
     for b in bin_names:
